@@ -310,3 +310,65 @@ Theorem C10_db_ok_sample_2 :
 Proof. exact (@db_ok_sample_2). Qed.
 Print Assumptions C10_db_ok_sample_2.
 
+Require Import WnV.Proofs.Translate.
+(* ---- N5 continued: translation is complete (every synset of a selected target lexicon that carries the same ILI is returned), hence exact (an iff on rowids together with C10_Synset_translate_sound) and symmetric (if a and b share a truthy ILI, a translates to b under a selection containing b's lexicon and b to a under one containing a's) *)
+Theorem C10_Wordnet_synsets_ili_complete :
+  forall (d : db) (w : Wordnet) (ili : option str) (ss : synset_row),
+         truthy ili = true ->
+         In ss (t_synsets d) ->
+         in_selection w (sy_lexicon_rowid ss) ->
+         ili_id_of d (sy_ili_rowid ss) = ili ->
+         In (mk_Synset w (synset_columns d ss)) (Wordnet_synsets d w None None ili).
+Proof. exact (@Wordnet_synsets_ili_complete). Qed.
+Print Assumptions C10_Wordnet_synsets_ili_complete.
+
+Theorem C10_Synset_translate_complete :
+  forall (d : db) (y : Synset) (lexicon lang : option str) (w' : Wordnet) (ss : synset_row),
+         truthy (ss_ili y) = true ->
+         Wordnet_init d lexicon lang None true (wn_norm_table (ss_wordnet y)) None true = Ok w' ->
+         In ss (t_synsets d) ->
+         in_selection w' (sy_lexicon_rowid ss) ->
+         ili_id_of d (sy_ili_rowid ss) = ss_ili y ->
+         exists ts : list Synset,
+           Synset_translate d y lexicon lang = Ok ts /\
+           (exists t : Synset, In t ts /\ ss__id t = sy_rowid ss).
+Proof. exact (@Synset_translate_complete). Qed.
+Print Assumptions C10_Synset_translate_complete.
+
+Theorem C10_Synset_translate_exact :
+  forall (d : db) (y : Synset) (lexicon lang : option str) (w' : Wordnet),
+         db_ok d = true ->
+         t_lexicons d <> [] ->
+         truthy (ss_ili y) = true ->
+         Wordnet_init d lexicon lang None true (wn_norm_table (ss_wordnet y)) None true = Ok w' ->
+         exists ts : list Synset,
+           Synset_translate d y lexicon lang = Ok ts /\
+           (forall r : Z,
+            (exists t : Synset, In t ts /\ ss__id t = r) <->
+            (exists ss : synset_row,
+               In ss (t_synsets d) /\
+               sy_rowid ss = r /\
+               In (sy_lexicon_rowid ss) (wn_lexicon_ids w') /\
+               ili_id_of d (sy_ili_rowid ss) = ss_ili y)).
+Proof. exact (@Synset_translate_exact). Qed.
+Print Assumptions C10_Synset_translate_exact.
+
+Theorem C10_Synset_translate_symmetric :
+  forall (d : db) (a b : synset_row) (w0a w0b : Wordnet)
+           (la_lexicon la_lang lb_lexicon lb_lang : option str) (wa wb : Wordnet),
+         In a (t_synsets d) ->
+         In b (t_synsets d) ->
+         truthy (ili_id_of d (sy_ili_rowid a)) = true ->
+         ili_id_of d (sy_ili_rowid a) = ili_id_of d (sy_ili_rowid b) ->
+         Wordnet_init d la_lexicon la_lang None true (wn_norm_table w0b) None true = Ok wa ->
+         in_selection wa (sy_lexicon_rowid a) ->
+         Wordnet_init d lb_lexicon lb_lang None true (wn_norm_table w0a) None true = Ok wb ->
+         in_selection wb (sy_lexicon_rowid b) ->
+         (exists ts : list Synset,
+            Synset_translate d (mk_Synset w0a (synset_columns d a)) lb_lexicon lb_lang = Ok ts /\
+            (exists t : Synset, In t ts /\ ss__id t = sy_rowid b)) /\
+         (exists ts : list Synset,
+            Synset_translate d (mk_Synset w0b (synset_columns d b)) la_lexicon la_lang = Ok ts /\
+            (exists t : Synset, In t ts /\ ss__id t = sy_rowid a)).
+Proof. exact (@Synset_translate_symmetric). Qed.
+Print Assumptions C10_Synset_translate_symmetric.
